@@ -61,6 +61,9 @@ func runC16(r *Run) {
 			break
 		}
 	}
+	for h := 0; h < n/4; h++ {
+		c16ErrorBurst(r, h)
+	}
 }
 
 // c16FailedAttempt: a reconnect attempt that fails half-way. The client has two monitors. Its connection
